@@ -82,7 +82,7 @@ func New(id, tier, level string) *Run {
 	seed, _ := strconv.ParseInt(os.Getenv("VERIF_SEED"), 10, 64)
 	r := &Run{ID: id, Tier: tier, Seed: seed, Level: level, cov: map[string]any{}, maxSamples: 8,
 		fails: map[string]*failure{}, known: map[string]*failure{}, start: time.Now(), assumptions: []string{}, samples: []any{}}
-	budget := 100 * time.Second
+	budget := 75 * time.Second
 	if tier == "thorough" {
 		budget = 25 * time.Minute
 	}
